@@ -261,6 +261,11 @@ Ltac unrv := unfold rvr, fr, rvl0; cbn [v_buf v_e v_err v_ps v_v v_vt v_a1 v_a2 
 
 Definition disp_of (b : stmt) : stmt := match b with SSeq _ (SSeq _ (SSeq _ (SSeq _ (SSeq _ (SSeq _ d))))) => d | _ => SSkip end.
 
+(* a value array that sbdf_va_destroy can release: the hypotheses of va_destroy_source, and the heap it leaves *)
+Definition va_rel (m : list Z) (h : heap) (vb : nat) (hf : heap) : Prop :=
+  exists ty enc v1 o1 o2 h1 h2, va_block h vb ty enc v1 o1 o2 /\ destroys_opt m h o1 h1 /\ destroys_opt m h1 o2 h2 /\
+    nth_error h1 vb = nth_error h vb /\ nth_error h2 vb = nth_error h vb /\ hf = kill vb h2.
+
 Section RVI.
 Variables (bv : val) (o : list Z) (rf rp : region) (fo po : Z).
 Notation fv := (VPtr rf fo).
@@ -306,7 +311,7 @@ Lemma rvi_read_plain k1 t s2 h m : Forall byte s2 ->
     (k1 < 0 -> match Obj.obj_read_arr false None t s2 with Ok (_, sM) => st = SBDF_OK /\ s' = sM /\ k' = k1 | Err e => st = e end) /\
     ((st = SBDF_OK /\ Forall byte s' /\
         exists newb, h' = h ++ Some [VInt t; VInt 1; VInt 0; VCell (S L) 0; VInt 0] :: newb /\ (1 <= List.length newb)%nat /\
-          forall pre2 : heap, List.length pre2 = S L -> destroys m' (pre2 ++ newb) (S L) (pre2 ++ nones (List.length newb)))
+          va_rel m' h' L (h ++ None :: nones (List.length newb)))
      \/ (st < 0 /\ exists j, h' = h ++ None :: nones j)).
 Proof.
   intros Hs2 L. set (h1 := h ++ [Some [VInt t; VInt 1; VInt 0; VInt 0; VInt 0]]).
@@ -316,7 +321,15 @@ Proof.
   assert (Hh1 : h1 = h ++ [Some [VInt t; VInt 1; VInt 0; VInt 0; VInt 0]]) by reflexivity.
   destruct Out as [(-> & -> & Hb' & newb & -> & Hnb & D)|(Hneg & -> & j & ->)].
   - (* the values were read *)
-    exists SBDF_OK. eexists (Build_rvl _ _ _ _ _ _ _ _ _). do 4 eexists. split; [|split; [exact Pf|split; [exact MT|left; split; [reflexivity|split; [exact Hb'|exists newb; split; [reflexivity|split; [exact Hnb|exact D]]]]]]].
+    exists SBDF_OK. eexists (Build_rvl _ _ _ _ _ _ _ _ _). do 4 eexists. split; [|split; [exact Pf|split; [exact MT|left; split; [reflexivity|split; [exact Hb'|exists newb; split; [reflexivity|split; [exact Hnb|]]]]]]].
+    2: { set (pre2 := h ++ [Some [VInt t; VInt 1; VInt 0; VCell (S L) 0; VInt 0]]).
+         assert (Hp2 : List.length pre2 = S L) by (unfold pre2, L; rewrite app_length; cbn; lia).
+         assert (HX : h ++ Some [VInt t; VInt 1; VInt 0; VCell (S L) 0; VInt 0] :: newb = pre2 ++ newb) by (unfold pre2; rewrite <- app_assoc; reflexivity).
+         assert (NL : forall z : heap, nth_error (pre2 ++ z) L = Some (Some [VInt t; VInt 1; VInt 0; VCell (S L) 0; VInt 0])).
+         { intros z. unfold pre2. rewrite <- app_assoc. cbn [app]. unfold L. rewrite nth_error_app2 by lia. rewrite Nat.sub_diag. reflexivity. }
+         exists t, 1, 0, (VCell (S L) 0), (VInt 0), (pre2 ++ nones (List.length newb)), (pre2 ++ nones (List.length newb)).
+         rewrite HX. split; [unfold va_block; apply NL|]. split; [right; exists (S L); split; [reflexivity|apply D; exact Hp2]|]. split; [left; split; reflexivity|].
+         split; [rewrite !NL; reflexivity|]. split; [rewrite !NL; reflexivity|]. unfold pre2. rewrite <- app_assoc. cbn [app]. unfold kill, L. rewrite set_nth_v_app. reflexivity. }
     cbn [fbody prog_sbdf_read_valuearray_int disp_of]. unrv. revert B. unfold ora, fr. cbn [app]. intros B.
     eapply bsE_seq; [|eapply bsE_return; evw; chk7; reflexivity].
     eapply bsE_if; [evw; chk7; reflexivity|reflexivity|].
@@ -365,8 +378,7 @@ Lemma rvi_read_rle k1 t s2 h m : Forall byte s2 ->
     ((st = SBDF_OK /\ Forall byte s' /\
         exists rows newb1 newb2, 0 <= rows /\ h' = h ++ Some [VInt t; VInt 2; VInt rows; VCell (S L) 0; VCell (S L + List.length newb1) 0] :: newb1 ++ newb2 /\
           (1 <= List.length newb1)%nat /\ (1 <= List.length newb2)%nat /\
-          (forall pre2 : heap, List.length pre2 = S L -> destroys m' (pre2 ++ newb1 ++ newb2) (S L) (pre2 ++ nones (List.length newb1) ++ newb2)) /\
-          (forall pre3 : heap, List.length pre3 = (S L + List.length newb1)%nat -> destroys m' (pre3 ++ newb2) (S L + List.length newb1) (pre3 ++ nones (List.length newb2))))
+          va_rel m' h' L (h ++ None :: nones (List.length newb1 + List.length newb2)))
      \/ (st < 0 /\ exists j, h' = h ++ None :: nones j)).
 Proof.
   intros Hs2 L.
@@ -491,9 +503,20 @@ Proof.
     + intros Hk. specialize (MT1 Hk). unfold rd_bind, rfail, rret. rewrite ER, Eneg.
       destruct (Obj.obj_read_arr false None SBDF_BYTETYPEID s3) as [[ob1 sM1]|eM1]; [|exact MT1]. destruct MT1 as (_ & <- & ->). specialize (MT2 Hk).
       destruct (Obj.obj_read_arr false None t s4) as [[ob2 sM2]|eM2]; [|exact MT2]. destruct MT2 as (_ & <- & ->). repeat split; reflexivity.
-    + split; [reflexivity|]. split; [exact Hs5|]. exists rows, newb1, newb2. split; [lia|]. split; [reflexivity|]. split; [exact Hn1|]. split; [exact Hn2|]. split.
-      * intros pre2 Hp2. rewrite !app_assoc. eapply destroys_grow; [apply D1; exact Hp2|destruct Pf2 as (x2 & ->); rewrite zlen_app; pose proof (zlen_nonneg x2); lia].
-      * exact D2.
+    + split; [reflexivity|]. split; [exact Hs5|]. exists rows, newb1, newb2. split; [lia|]. split; [reflexivity|]. split; [exact Hn1|]. split; [exact Hn2|].
+      set (pre2 := h ++ [Some [VInt t; VInt 2; VInt rows; VCell (S L) 0; VCell (S L + n1) 0]]).
+      assert (Hp2 : List.length pre2 = S L) by (unfold pre2, L; rewrite app_length; cbn; lia).
+      assert (HX : h ++ Some [VInt t; VInt 2; VInt rows; VCell (S L) 0; VCell (S L + n1) 0] :: newb1 ++ newb2 = (pre2 ++ newb1) ++ newb2) by (unfold pre2; rewrite <- !app_assoc; reflexivity).
+      assert (NL : forall z : heap, nth_error (pre2 ++ z) L = Some (Some [VInt t; VInt 2; VInt rows; VCell (S L) 0; VCell (S L + n1) 0])).
+      { intros z. unfold pre2. rewrite <- app_assoc. cbn [app]. unfold L. rewrite nth_error_app2 by lia. rewrite Nat.sub_diag. reflexivity. }
+      set (pre3 := pre2 ++ nones n1).
+      assert (Hp3 : List.length pre3 = (S L + n1)%nat) by (unfold pre3, nones; rewrite app_length, repeat_length; lia).
+      exists t, 2, rows, (VCell (S L) 0), (VCell (S L + n1) 0), (pre3 ++ newb2), (pre3 ++ nones (List.length newb2)).
+      fold n1. rewrite HX. split; [unfold va_block; rewrite <- app_assoc; apply NL|].
+      split; [right; exists (S L); split; [reflexivity|unfold pre3; eapply destroys_grow; [apply D1; exact Hp2|destruct Pf2 as (x2 & ->); rewrite zlen_app; pose proof (zlen_nonneg x2); lia]]|].
+      split; [right; exists (S L + n1)%nat; split; [reflexivity|apply D2; exact Hp3]|].
+      split; [unfold pre3; rewrite <- !app_assoc; rewrite !NL; reflexivity|]. split; [unfold pre3; rewrite <- !app_assoc; rewrite !NL; reflexivity|].
+      unfold pre3, pre2. rewrite <- !app_assoc. cbn [app]. unfold kill, L. rewrite set_nth_v_app. rewrite nones_app. reflexivity.
   - (* the values could not be read: object1 and the handle are released *)
     assert (tl2 = nones j2) by (rewrite Hh4 in Htl2; apply app_inv_head in Htl2; congruence). subst tl2.
     set (pre2 := h ++ [Some [VInt t; VInt 2; VInt rows; VCell (S L) 0; VNull]]).
@@ -557,7 +580,7 @@ Lemma rvi_read_bs k sx h m sh : Forall byte sx -> (forall t s2, sx <> 3 :: t :: 
   exists st l' sh' k' s' h' m',
     bsE prog_env (fbody prog_sbdf_read_valuearray_int) (rvr fv hv rvl0 sh bv k sx h m o) (OReturn (VInt st) (rvr fv hv l' sh' bv k' s' h' m' o)) /\ prefix_of m m' /\
     (k < 0 -> match Va.va_read false None sx with Ok (_, sM) => st = SBDF_OK /\ s' = sM | Err e => st = e end) /\
-    ((st = SBDF_OK /\ sh' = VCell L 0 /\ exists blk newb, h' = h ++ Some blk :: newb) \/ (st < 0 /\ exists j, h' = h ++ nones j)).
+    ((st = SBDF_OK /\ sh' = VCell L 0 /\ exists blk newb, h' = h ++ Some blk :: newb /\ va_rel m' h' L (h ++ None :: nones (List.length newb))) \/ (st < 0 /\ exists j, h' = h ++ nones j)).
 Proof.
   intros Hs H3 L. unfold Va.va_read, rd_bind, vt_read.
   destruct sx as [|e s1].
@@ -601,7 +624,7 @@ Proof.
     exists st, l', (VCell L 0), k', s', h', m'. split; [apply rvi_read_pre; [exact Hs|exact Hk|exact B]|]. split; [exact Pf|]. split.
     - intros Hk0. specialize (MT ltac:(rewrite (Dk Hk0); exact Hk0)). unfold rd_bind, rret.
       destruct (Obj.obj_read_arr false None t s2) as [[ob sM]|eM]; [destruct MT as (-> & -> & _); split; reflexivity|exact MT].
-    - destruct Out as [(-> & _ & newb & -> & _)|(Hn & j & ->)]; [left; split; [reflexivity|split; [reflexivity|eexists; eexists; reflexivity]]|right; split; [exact Hn|exists (S j); reflexivity]]. }
+    - destruct Out as [(-> & _ & newb & -> & _ & VR)|(Hn & j & ->)]; [left; split; [reflexivity|split; [reflexivity|eexists; eexists; split; [reflexivity|exact VR]]]|right; split; [exact Hn|exists (S j); reflexivity]]. }
   destruct (e =? 2) eqn:E2.
   { assert (e = 2) by lia. subst e.
     destruct (rvi_read_rle bv o rf rp fo po (dec k) t s2 h m Hs2) as (st & l' & k' & s' & h' & m' & B & Pf & MT & Out). fold L in B, Out.
@@ -610,7 +633,8 @@ Proof.
       destruct (read_int32 false s2) as [[rows s3]|eR]; [|exact MT]. destruct (rows <? 0); [exact MT|].
       destruct (Obj.obj_read_arr false None SBDF_BYTETYPEID s3) as [[ob1 sM1]|eM1]; [|exact MT].
       destruct (Obj.obj_read_arr false None t sM1) as [[ob2 sM2]|eM2]; [destruct MT as (-> & -> & _); split; reflexivity|exact MT].
-    - destruct Out as [(-> & _ & rows & newb1 & newb2 & _ & -> & _)|(Hn & j & ->)]; [left; split; [reflexivity|split; [reflexivity|eexists; eexists; reflexivity]]|right; split; [exact Hn|exists (S j); reflexivity]]. }
+    - destruct Out as [(-> & _ & rows & newb1 & newb2 & _ & -> & _ & _ & VR)|(Hn & j & ->)]; [|right; split; [exact Hn|exists (S j); reflexivity]].
+      left. split; [reflexivity|]. split; [reflexivity|]. eexists; eexists. split; [reflexivity|]. rewrite app_length. exact VR. }
   destruct (e =? 3) eqn:E3; [exfalso; assert (e = 3) by lia; subst e; exact (H3 t s2 eq_refl)|].
   unfold byte in He. destruct (rvi_read_unknown (dec k) e t s2 h m He ltac:(lia) ltac:(lia) ltac:(lia)) as (l' & B). fold L in B.
   exists SBDF_ERROR_UNKNOWN_VALUEARRAY_ENCODING, l', (VCell L 0), (dec k), s2, (h ++ [None]), m. split; [apply rvi_read_pre; [exact Hs|exact Hk|exact B]|].
@@ -629,13 +653,14 @@ Theorem va_read_source rf rp fo po k sx m h : Forall byte sx -> (forall t s2, sx
     (k < 0 -> match Va.va_read false None sx with
               | Ok (_, sM) => st = SBDF_OK /\ lookup strm_var (vars fin) = Some (VBytes sM)
               | Err e => st = e end) /\
-    ((st = SBDF_OK /\ lookup "*handle" (vars fin) = Some (VCell (List.length h) 0) /\ exists blk newb, lookup cells_var (vars fin) = Some (VHeap (h ++ Some blk :: newb))) \/
+    ((st = SBDF_OK /\ lookup "*handle" (vars fin) = Some (VCell (List.length h) 0) /\
+        exists blk newb, lookup cells_var (vars fin) = Some (VHeap (h ++ Some blk :: newb)) /\ va_rel (inb fin) (h ++ Some blk :: newb) (List.length h) (h ++ None :: nones (List.length newb))) \/
      (st < 0 /\ lookup "*handle" (vars fin) = Some VNull /\ exists j, lookup cells_var (vars fin) = Some (VHeap (h ++ nones j)))).
 Proof.
   intros Hs H3.
   destruct (rvi_read_bs (VInt 0) [] rf rp fo po k sx h m VNull Hs H3) as (st & l' & sh' & k' & s' & h' & m' & B & Pf & MT & Out).
   destruct l'. revert B. unrv. intros B.
-  destruct Out as [(-> & -> & blk & newb & ->)|(Hneg & j & ->)].
+  destruct Out as [(-> & -> & blk & newb & -> & VR)|(Hneg & j & ->)].
   - assert (BV : bsE prog_env (fbody prog_sbdf_va_read) (vrd (VPtr rf fo) (VPtr rp po) VUndef VUndef (VInt 0) k sx h m [])
                    (OReturn (VInt SBDF_OK) (vrd (VPtr rf fo) (VPtr rp po) (VInt SBDF_OK) (VCell (List.length h) 0) (VInt 0) k' s' (h ++ Some blk :: newb) m' []))).
     { cbn [fbody prog_sbdf_va_read]. unfold vrd, fr. cbn [app].
@@ -646,7 +671,7 @@ Proof.
       eapply bsE_seq; [eapply bsE_if; [evw; reflexivity|reflexivity|apply bsE_skip]|]. eapply bsE_return. evw. reflexivity. }
     destruct (bsE_sound _ _ _ _ BV) as (f0 & F). exists f0. intros f Hf. exists SBDF_OK. eexists. split; [apply F; exact Hf|]. split; [exact Pf|]. split.
     + intros Hk. specialize (MT Hk). destruct (Va.va_read false None sx) as [[va sM]|eM]; [destruct MT as (_ & ->); split; reflexivity|exact MT].
-    + left. split; [reflexivity|]. split; [reflexivity|]. exists blk, newb. reflexivity.
+    + left. split; [reflexivity|]. split; [reflexivity|]. exists blk, newb. split; [reflexivity|exact VR].
   - assert (BV : bsE prog_env (fbody prog_sbdf_va_read) (vrd (VPtr rf fo) (VPtr rp po) VUndef VUndef (VInt 0) k sx h m [])
                    (OReturn (VInt st) (vrd (VPtr rf fo) (VPtr rp po) (VInt st) VNull (VInt 0) k' s' (h ++ nones j) m' []))).
     { cbn [fbody prog_sbdf_va_read]. unfold vrd, fr. cbn [app].
@@ -681,4 +706,31 @@ Proof.
   destruct (obj_destroy_source k' sx' m' (h ++ newb) (List.length h) (h ++ nones (List.length newb)) (D h eq_refl)) as (f1 & F1).
   exists k', sx', (h ++ newb), (List.length newb), f1. split; [reflexivity|]. split; [reflexivity|]. split; [reflexivity|]. split; [exact Hnb|]. split; [apply app_length|].
   intros g Hg. destruct (F1 g Hg) as (fin2 & C2 & I2 & H2). exists fin2. split; [exact C2|]. split; [exact I2|exact H2].
+Qed.
+
+(* a value array that was read is released by one sbdf_va_destroy: handle and objects, once each *)
+Theorem va_rel_destroy k sx m h vb hf : va_rel m h vb hf ->
+  exists f0, forall f, (f0 <= f)%nat -> exists fin,
+    callC prog_env f prog_sbdf_va_destroy [VCell vb 0] m k sx h = ONormal fin /\ inb fin = m /\ lookup cells_var (vars fin) = Some (VHeap hf).
+Proof.
+  intros (ty & enc & v1 & o1 & o2 & h1 & h2 & Hv & D1 & D2 & K1 & K2 & ->).
+  exact (va_destroy_source k sx m h vb ty enc v1 o1 o2 h1 h2 Hv D1 D2 K1 K2).
+Qed.
+
+Theorem va_read_then_destroy rf rp fo po k sx m h : Forall byte sx -> (forall t s2, sx <> 3 :: t :: s2) ->
+  exists f0, forall f, (f0 <= f)%nat -> exists st fin,
+    callC prog_env f prog_sbdf_va_read [VPtr rf fo; VPtr rp po] m k sx h = OReturn (VInt st) fin /\
+    (st = SBDF_OK ->
+       lookup "*handle" (vars fin) = Some (VCell (List.length h) 0) /\
+       exists h' nb, lookup cells_var (vars fin) = Some (VHeap h') /\ List.length h' = (List.length h + S nb)%nat /\
+         forall k' s', exists f1, forall g, (f1 <= g)%nat -> exists fin2,
+           callC prog_env g prog_sbdf_va_destroy [VCell (List.length h) 0] (inb fin) k' s' h' = ONormal fin2 /\
+           inb fin2 = inb fin /\ lookup cells_var (vars fin2) = Some (VHeap (h ++ nones (S nb)))).
+Proof.
+  intros Hs H3. destruct (va_read_source rf rp fo po k sx m h Hs H3) as (f0 & F). exists f0. intros f Hf.
+  destruct (F f Hf) as (st & fin & C & _ & _ & Out). exists st, fin. split; [exact C|]. intros E.
+  destruct Out as [(_ & Hh & blk & newb & Hc & VR)|(Hn & _)]; [|unfold SBDF_OK in E; lia].
+  split; [exact Hh|]. exists (h ++ Some blk :: newb), (List.length newb). split; [exact Hc|]. split; [rewrite app_length; cbn [List.length]; lia|].
+  intros k' s'. destruct (va_rel_destroy k' s' (inb fin) _ _ _ VR) as (f1 & F1). exists f1. intros g Hg. destruct (F1 g Hg) as (fin2 & C2 & I2 & H2).
+  exists fin2. split; [exact C2|]. split; [exact I2|]. rewrite H2. reflexivity.
 Qed.
